@@ -120,7 +120,7 @@ def setFork (s : State) (f : Nat) (fk : Fork) : State :=
 def stepF (c : Cfg) (s : State) (f : Nat) (fk : Fork) : Kind → Option State
   | .call =>
     match fk.pc with
-    | .idle => some (setFork s f { fk with pc := if fk.cur.isNone then .chkHead else .wLoop })
+    | .idle => some (setFork s f { fk with pc := if fk.cur = none then .chkHead else .wLoop })
     | _ => none
   | .hget =>
     match fk.pc with
